@@ -39,6 +39,7 @@ type RunOpts struct {
 	Fuel      int64
 	Mode      string // "", "c01", "c03", "c18"
 	Stop      bool
+	StopSig   string
 }
 
 func defaultOracles(e *Env) {
@@ -101,6 +102,17 @@ func Replay(tr *Trace, opt RunOpts) *RunResult {
 		e.RunStep(&st)
 		if e.Dead {
 			break
+		}
+		if opt.StopSig != "" {
+			hit := false
+			for _, v := range e.Viol {
+				if v.Sig() == opt.StopSig {
+					hit = true
+				}
+			}
+			if hit {
+				break
+			}
 		}
 	}
 	e.Finish()
